@@ -23,6 +23,7 @@ ASSUMPTIONS = [
 TRUSTED = ["std collection methods mutate only their receiver"]
 
 MUTANTS = [
+    {"name": "refusal-after-slot-trimming", "file": "src/broker/migrate.rs", "old": "        Self::check_running_tasks(cluster)?;\n\n        let migration_slots = Self::remove_slots_from_src(cluster, new_epoch);\n", "new": "        let migration_slots = Self::remove_slots_from_src(cluster, new_epoch);\n        Self::check_running_tasks(cluster)?;\n", "expect": "C04.D1:err-after-write"},
     {"name": "change_config-drop-set_epoch", "file": "src/broker/update.rs", "old": "                cluster.config = cluster_config;\n                cluster.set_epoch(new_epoch);\n", "new": "                cluster.config = cluster_config;\n", "expect": "C04.D1:cluster-epoch:update::MetaStoreUpdate::change_config"},
     {"name": "remove_proxy-drop-bump", "file": "src/broker/update.rs", "old": "        self.store.failures.remove(&proxy_address);\n        self.store.bump_global_epoch();\n        Ok(())", "new": "        self.store.failures.remove(&proxy_address);\n        Ok(())", "expect": "C04.D1:bump:update::MetaStoreUpdate::remove_proxy"},
     {"name": "balance_masters-stale-epoch", "file": "src/broker/update.rs", "old": "                    chunk.role_position = ChunkRolePosition::Normal;\n                }\n                cluster.set_epoch(new_epoch);", "new": "                    chunk.role_position = ChunkRolePosition::Normal;\n                }\n                let e = cluster.epoch;\n                cluster.set_epoch(e);", "expect": "C04.D1:epoch-origin:update::MetaStoreUpdate::balance_masters"},
